@@ -36,7 +36,15 @@ RULE = ('one case = backend (dict / directory / zip / caching wrapper) x failure
         'un-serializable leaf}; deterministic families `order` (all assignments of the identifiers 3/10/20 to parent '
         'and children), `hist` (delete + re-store histories), `ow` (overwrite of an existing, referenced identifier '
         'with new sub-templates, retried / wrapped afterwards), `lowlevel`, `same` (the cached object itself again), '
-        '`load` (loaded vs. original objects as sub-templates); '
+        '`load` (loaded vs. original objects as sub-templates); round 4: `open` (failures of OPENING / CREATING a file: every '
+        'such position failing with EMFILE from the operating system - descriptor limit 0 while the primitive runs, '
+        'nothing injected - and identifiers of 247..251 characters / with a path separator whose temporary file name '
+        'the file system refuses, 246 = the longest that works), `names` (identifiers spelled with dots, leading dot, '
+        '.json / .tmp endings, blanks, glob / quote characters, non-ASCII, case twins, maximal length: nothing may '
+        'change), `share` + `dag` (a sub-template referenced from several parents at different depths in both orders; '
+        'all DAGs over 2..4 named objects, sampled in the quick tier), `cache` (caching wrapper around directory and '
+        'archive, observed through the wrapper object as well), `registry` (the PulseStorage is the default registry: '
+        'constructing the object stores it); '
         'random templates on pre-populated storages.  Non-trivial = at least two crash positions or a pre-write '
         'failure; distinct = distinct canonical JSON of the case.')
 TRUSTED = [
@@ -1069,11 +1077,11 @@ def spec_failures(case, obs):
 
 
 # classification (exact): `finding_of` in Corr.v decides, for a case the specification rejects, whether the
-# implementation behaved exactly as the model predicts AND some operation of the case flushes a transaction buffer
-# outside guard_C11_tx in the model (round 3: the buffer guard, weaker than the two round-2 guards; with every buffer
-# inside it C11_crash_safe_tx excludes a rejection).
+# implementation behaved exactly as the model of the repaired code predicts AND some operation of the case is outside
+# guard2_exact in the state it starts in (round 4: the exact guard - clause (a) fails at some interruption point of the
+# model iff the operation is outside it, clauses (b), (c) need no guard: C11_repaired_crash_safe_exact).
 # It is evaluated in Coq, in one batch for all rejected cases of a run (collected by py_spec, which runs first).
-FINDINGS = {1: 'dup-id-in-transaction', 2: 'overwrite-creates-cycle'}
+FINDINGS = {2: 'overwrite-creates-cycle'}      # (1 = dup-id-in-transaction: repaired in round 4, repo a5bca40)
 _PENDING = {}
 _FINDING = {}
 
